@@ -80,8 +80,8 @@ theorem two_byte_refines (c : Core) (a : Arch) (h : AtFetch c a) (hint : c.pendI
     (hb : (Isa.operand { a with pc := a.pc + 1 } (op / 4 % 4) (op % 4)).1.bus.read
             (Isa.operand { a with pc := a.pc + 1 } (op / 4 % 4) (op % 4)).1.pc = BitVec.ofNat 8 b) :
     ∃ n a', Isa.step a = some a' ∧ AtFetch (Core.iter n c) a' := by
-  obtain ⟨n1, hs, hpi⟩ := prefix_any c a h hint op hr hop
-  obtain ⟨n2, a', hsec, hf⟩ := second_any _ _ _ hs hpi b hd hb
+  obtain ⟨n1, hs, hpi⟩ := prefix_any c a h op hr hop
+  obtain ⟨n2, a', hsec, hf⟩ := second_any _ _ _ hs (by rw [hpi]; exact hint) b hd hb
   refine ⟨n1 + n2, a', ?_, by rw [iter_add]; exact hf⟩
   have hlt : op < 256 := by omega
   have htn : (BitVec.ofNat 8 op).toNat = op := by simp [Nat.mod_eq_of_lt hlt]
